@@ -243,5 +243,19 @@ reg('C16', True,
     'discarded verdict of project() in ProjectedStateSampler (no failing input found; listed).',
     'clang 14 AST/CFG of 6 units (constrained, projected, atlas, tangent-bundle spaces, AtlasChart, Constraint); constraint function and charts opaque',
     'path-sensitive typestate over clang CFG + finite-domain abstract interpretation of the retry loops + provenance/dimension lints')
-for _p in ['C20']:
+reg('C20', True,
+    'Decides the clauses visible in the code over the whole library (237 units): no seeding site takes a value that '
+    'depends on an entropy or clock source except the seed generator\'s own constructor (single source); RNG::RNG() '
+    'seeds from nextSeed(); the seed generator\'s three methods run under its mutex, setSeed stores the first seed only '
+    'before any seed was handed out and reseeds with the (corrected) seed parameter, a zero seed becomes a fixed '
+    'constant; setLocalSeed reseeds and resets every distribution / cache member of RNG (exhaustive against the '
+    'field table); in planner code clock values and library-created timed termination conditions reach only logging '
+    'and statistics members, every other use being in a triaged table with reasons; no order-sensitive traversal of '
+    'an address-hashed unordered container; every scalar field an ordering functor reads is initialised by every '
+    'constructor of the element class. Not decided: that planners draw only from their RNG members (no other '
+    'hidden state is searched for), ordered pointer-keyed containers (reproducible, listed), bit-identical floating '
+    'point, LTLPlanner\'s clock-sliced exploration (observed, listed).',
+    'clang 14 AST of all 237 library units; value flow is intra-procedural through local definitions',
+    'who-may-call / value-flow taint of entropy and clock sources + record-table exhaustiveness + comparator key initialisation')
+for _p in []:
     reg(_p, False, '', '', '', PENDING)
